@@ -290,8 +290,46 @@ class FakeB2(BaseFake):
         return self._json(request, 404, {'code': 'not_found'})
 
 
+_FOR_NEW_CLIENTS = [None]
+_real_client_init = httpx.AsyncClient.__init__
+
+
+def _client_init(self, *a, **kw):
+    fake = _FOR_NEW_CLIENTS[0]
+    if fake is not None and kw.get('transport') is None:
+        kw['transport'] = fake
+        kw.pop('mounts', None)
+        kw.pop('proxy', None)
+        kw.pop('proxies', None)
+    _real_client_init(self, *a, **kw)
+
+
+httpx.AsyncClient.__init__ = _client_init
+
+
+def _route(c, fake):
+    c._transport = fake
+    c._mounts = {}
+
+
 def install(client, fake):
-    """Route a backend's httpx.AsyncClient through the fake."""
-    client._client._transport = fake
-    client._client._mounts = {}
+    """Route a backend's HTTP traffic through the fake: every httpx.AsyncClient the backend object holds (under
+    whatever attribute name, also inside containers one level down), and every client created from now on
+    (a backend may create its client lazily or per request)."""
+    seen = 0
+    for v in list(vars(client).values()):
+        if isinstance(v, httpx.AsyncClient):
+            _route(v, fake)
+            seen += 1
+        elif isinstance(v, (list, tuple, set)):
+            for x in v:
+                if isinstance(x, httpx.AsyncClient):
+                    _route(x, fake)
+                    seen += 1
+        elif isinstance(v, dict):
+            for x in v.values():
+                if isinstance(x, httpx.AsyncClient):
+                    _route(x, fake)
+                    seen += 1
+    _FOR_NEW_CLIENTS[0] = fake
     return fake
